@@ -166,9 +166,14 @@ class ACChecker(object):
         factors = expr.as_ordered_factors()
 
         self.amp = 1
+        nfuncs = 0
         for factor in factors:
             if factor.is_Function:
                 if factor.func not in (cos, sin, exp):
+                    return False
+                nfuncs += 1
+                if nfuncs > 1:
+                    # A product of sinusoids has sum and difference frequencies.
                     return False
                 if not self._find_freq_phase(factor):
                     return False
